@@ -167,7 +167,7 @@ fn noise_string(mut idx: usize, len: usize) -> String {
 pub fn run() -> i32 {
     let mut r = Report::new("C02");
     let thorough = r.thorough();
-    r.rule = "four exhaustive families, every case through compile + Rule::apply per word and through run / trace_changes / get_trace_string: (1) every rule of rulegen(n) x hand-shaped words; (2) every rule at token-edit distance 1 (delete, duplicate, replace by / insert each of 48 tokens) from a frozen corpus of documented, test-suite and example-project rules x 8 words; (3) every string of <= m chars over a 48-char alphabet as rule, word, deromaniser and romaniser; (4) over-large and odd numeric literals in every position that takes digits; (5) every romaniser whose input is a sequence of 1..k elements over 11 element kinds (segments and matrices with length / stress modifiers, `$`) x 3 replacement kinds, and every deromaniser with such an output, on 10 words with long segments at syllable ends. Oracle: returns Ok or Err within the step budget 2 000 + 20 (|w|+1)(|r|+1); any panic or budget exhaustion is a violation. Non-trivial = returned Ok.".into();
+    r.rule = "four exhaustive families, every case through compile + Rule::apply per word and through run / trace_changes / get_trace_string: (1) every rule of rulegen(n) x hand-shaped words; (2) every rule at token-edit distance 1 (delete, duplicate, replace by / insert each of 48 tokens) from a frozen corpus of documented, test-suite and example-project rules x 8 words; (3) every string of <= m chars over a 48-char alphabet as rule, word, deromaniser and romaniser; (4) over-large and odd numeric literals in every position that takes digits; (6) every feature / node / suprasegmental spelling and 13 near-names x 11 value forms (binary, alpha, inverted alpha, capital alpha, last Greek letter, malformed) x 12 slots (input, output, context, exception, syllable, structure, insertion, metathesis, both alias directions) and numeric forms x 5 slots; (5) every romaniser whose input is a sequence of 1..k elements over 11 element kinds (segments and matrices with length / stress modifiers, `$`) x 3 replacement kinds, and every deromaniser with such an output, on 10 words with long segments at syllable ends. Oracle: returns Ok or Err within the step budget 2 000 + 20 (|w|+1)(|r|+1); any panic or budget exhaustion is a violation. Non-trivial = returned Ok.".into();
     r.assumptions.push("release build semantics (debug_assert off), as shipped".into());
     r.assumptions.push("stack overflow / allocation failure would abort the check (exit code != 0,1), never pass silently".into());
     let mut tot = Acc::default();
@@ -256,6 +256,30 @@ pub fn run() -> i32 {
     r.boxes.push(json!({"box": format!("5 alias grammar: romaniser inputs / deromaniser outputs of <= {} elements", ak), "alias_lines": alines.len(), "calls": f5.evals, "ok": f5.ok, "err": f5.err, "crash_classes": f5.crashes.len()}));
     r.guard(f5.ok > 1000, "alias family: more than 1000 calls returned Ok");
     tot.merge(f5);
+    // ---- family 6: modifier grammar — every feature / node / suprasegmental spelling (plus near-names) x every value form x every slot
+    let syn: Value = serde_json::from_str(&std::fs::read_to_string("/verif/fixtures/feature_synonyms.json").expect("feature_synonyms fixture")).expect("fixture json");
+    let mut names: Vec<String> = vec![];
+    for (_, v) in syn.as_object().expect("fixture object") { for sp in v["spellings"].as_array().expect("spellings") { names.push(sp.as_str().unwrap().to_string()); } }
+    for extra in ["tone", "ton", "tn", "tne", "length", "len", "syllable", "seg", "xyz", "PLACE", "Voice", "t", "α"] { names.push(extra.to_string()); }
+    let vals = ["+", "-", "α", "-α", "A", "-A", "ω", "-ω", "+α", "αβ", ""];
+    let mut mrules: Vec<(String, u8)> = vec![];
+    for nm in &names {
+        for v in vals {
+            let m = format!("[{}{}]", v, nm);
+            for t in [format!("a > {}", m), format!("{} > e", m), format!("a > e / _{}", m), format!("a > e | {}_", m), format!("%:{} > [+stress]", m), format!("a > e / _%:{}", m), format!("C:{} > e / _{}", m, m), format!("⟨C:{}a⟩ > * / _#", m), format!("* > a:{} / _#", m), format!("a {} > &", m)] { mrules.push((t, 0)); }
+            mrules.push((format!("x > a:{}", m), 1)); mrules.push((format!("a:{} > x", m), 2));
+        }
+        for num in ["5", "51", "0", "α"] {
+            let m = format!("[{}: {}]", nm, num);
+            for t in [format!("a > {}", m), format!("%:{} > [+stress]", m), format!("a > e / _{}", m)] { mrules.push((t, 0)); }
+            mrules.push((format!("x > a:{}", m), 1)); mrules.push((format!("a:{} > x", m), 2));
+        }
+    }
+    let mut f6 = Acc::default();
+    par_fold(mrules.len(), 64, Acc::default, |i, a| match mrules[i].1 { 0 => rule_case(&mrules[i].0, &W8, "modifier", a), 1 => alias_case(&mrules[i].0, true, "modifier-into", a), _ => alias_case(&mrules[i].0, false, "modifier-from", a) }, |a| f6.merge(a));
+    r.boxes.push(json!({"box": "6 modifier grammar: every feature/node/supra spelling + near-names x 11 value forms x 12 slots, numeric forms x 5 slots", "names": names.len(), "lines": mrules.len(), "calls": f6.evals, "ok": f6.ok, "err": f6.err, "crash_classes": f6.crashes.len()}));
+    r.guard(f6.ok > 1000 && f6.err > 1000, "modifier family: both Ok and Err outcomes occur");
+    tot.merge(f6);
     // ---- family 4: numeric literals
     let nums = ["0", "1", "00", "007", "4294967296", "18446744073709551616", "99999999999999999999", "65536", "99999"];
     let mut f4 = Acc::default();
